@@ -86,3 +86,56 @@ FUNCTIONS = {
 }
 
 EXTERNS = {}
+
+FUNCTIONS.update({
+  # WhenAll at call time: nothing is decided synchronously -- every input, complete or not, is
+  # handled by its link callback (gevent runs the link of an already complete input at once)
+  'AsyncResult.WhenAll': dict(
+    cls=None, params={'ars': 'list[AsyncResult]'}, returns='AsyncResult',
+    locals={'total': 'list[int]', 'results': 'list[any]'},
+    literals={'[None]': 'list[any]'},
+    requires=['len(ars) >= 1'],
+    ensures=['fresh(result)', 'not result.g_ready'],
+    modifies=['list[int]', 'list[any]', 'AsyncResult.g_sets', 'AsyncResult.value', 'AsyncResult.exception', 'AsyncResult.g_ready', 'AsyncResult.g_links', '$cls'],
+    allocates='any',
+    loops={0: dict(invariant=['not ret.g_ready', 'fresh(ret)', 'len(total) == 1 and total[0] == len(ars)',
+                              'len(results) == len(ars)', 'forall(k, 0, len(results), results[k] is None)',
+                              'fresh(total) and fresh(results)'],
+                   modifies=['AsyncResult.g_links'], allocates=True)},
+    ghost=[{'before': 'return ret', 'do': [
+      'prove(total[0] == len(ars) and forall(k, 0, len(ars), results[k] is None), "countdown-and-slots-move-only-in-callbacks")']},
+      {'after': 'ar.rawlink(functools.partial(complete, n))', 'do': ['prove(ar == ars[n] and ar.g_links >= 1 + g_l0, "each-input-gets-its-link")']},
+      {'before': 'ar.rawlink(functools.partial(complete, n))', 'do': ['g_l0 = ar.g_links']}],
+    props=['C17'],
+  ),
+
+  # Unwrap: a fresh result that follows the chain of nested results
+  'AsyncResult.Unwrap': dict(
+    cls='AsyncResult', returns='AsyncResult',
+    requires=[], ensures=['fresh(result)'],
+    modifies=['AsyncResult.g_sets', 'AsyncResult.value', 'AsyncResult.exception', 'AsyncResult.g_ready', 'AsyncResult.g_links', '$cls'],
+    allocates='any',
+    props=['C17'],
+  ),
+  'AsyncResult._UnwrapHelper': dict(
+    cls='AsyncResult', params={'target': 'AsyncResult'},
+    requires=['allocated(target)'],
+    ensures=[
+      'target.g_sets <= old(target.g_sets) + 1',
+      # not complete yet: nothing reaches the target now (it is linked for later)
+      'implies(not old(self.g_ready), target.g_sets == old(target.g_sets) and self.g_links == old(self.g_links) + 1)',
+      # a failure anywhere along the chain reaches the target
+      'implies(old(self.g_ready and self.exception is not None), target.g_sets == old(target.g_sets) + 1 and target.exception == old(self.exception))',
+      # a plain value is delivered as is; a nested result is followed, never delivered itself
+      'implies(old(self.g_ready and self.exception is None and not dyn_is(self.value, AsyncResult)), target.g_sets == old(target.g_sets) + 1 and target.exception is None and target.value == old(self.value))',
+      'implies(target.g_sets == old(target.g_sets) + 1 and target.exception is None, not dyn_is(target.value, AsyncResult))',
+    ],
+    modifies=['AsyncResult.g_sets', 'AsyncResult.value', 'AsyncResult.exception', 'AsyncResult.g_ready', 'AsyncResult.g_links'],
+    allocates=True,
+    props=['C17'],
+  ),
+})
+
+EXTERNS.update({
+  'functools.partial': dict(params=[('fn', 'any')], varargs=True, returns='any', ensures=['result is not None'], allocates=True),
+})
